@@ -105,6 +105,19 @@ def save_exp_form(repo, col, R):
     if r.op in ("mcall", "call") and r.name == "exp":
         a = [q for q in r.args if q.op != "free"]
         c = a[0] if a else None
+        if c is not None and c.op in ("mcall", "call") and c.name == "where":
+            # min(x, b) written as a selection: where(x > b, b, x) / where(x < b, x, b) (and the non-strict forms)
+            wa = [q for q in c.args if q.op != "free"]
+            if len(wa) == 3 and wa[0].op == "cmp" and len(wa[0].args) == 2:
+                l_, r_ = wa[0].args
+                opn = wa[0].name
+                if is_x(r_) and not is_x(l_):
+                    l_, r_, opn = r_, l_, {">": "<", "<": ">", ">=": "<=", "<=": ">="}.get(opn, opn)
+                if is_x(l_) and not is_x(r_):
+                    if opn in (">", ">=") and wa[1].key() == r_.key() and is_x(wa[2]):
+                        bound = r_
+                    elif opn in ("<", "<=") and is_x(wa[1]) and wa[2].key() == r_.key():
+                        bound = r_
         if c is not None and c.op in ("mcall", "call") and c.name in ("clip", "minimum"):
             ca = [q for q in c.args if q.op != "free"]
             if c.name == "minimum" and len(ca) == 2 and is_x(ca[0]):
